@@ -38,8 +38,17 @@ type child struct {
 
 	launchedInCb sync.Map // work id -> true when a lifecycle routine launched the item itself
 	storming     int32    // a sigstorm step is in progress
+	straddling   int32    // bodies of "straddle" microtasks still running
 
 	arrivals sync.Map // point|ctx -> *int32
+	startsOf sync.Map // module -> *int32: successful start routine runs
+	launchAt sync.Map // module -> int32: value of the start counter when its work was last launched
+}
+
+// startCount counts the successful runs of a module's start routine.
+func (c *child) startCount(mod string) *int32 {
+	v, _ := c.startsOf.LoadOrStore(mod, new(int32))
+	return v.(*int32)
 }
 
 func (c *child) rec(e Event) {
@@ -104,6 +113,7 @@ func (c *child) lifecycle(mod, phase string, cb Callback) func() error {
 		}
 		if phase == "start" {
 			c.started.Store(mod, true)
+			atomic.AddInt32(c.startCount(mod), 1)
 		}
 		return nil
 	}
@@ -398,7 +408,9 @@ func RunChild(sc *Scenario) *Result {
 			t0 := time.Now()
 			err := modules.ManageModules()
 			c.snapshot("manage", err, time.Since(t0))
-		case "launch":
+		case "launch", "relaunch":
+			// relaunch: only modules that have been started again since their work was last launched (a module that
+			// stayed online as a dependency still runs its first set of items)
 			var ids []int
 			type lateItem struct {
 				mod string
@@ -411,6 +423,14 @@ func RunChild(sc *Scenario) *Result {
 				if m == nil || !c.mods[n].Online() {
 					continue
 				}
+				starts := atomic.LoadInt32(c.startCount(n))
+				if st.Op == "relaunch" {
+					if at, ok := c.launchAt.Load(n); !ok || at.(int32) >= starts {
+						continue
+					}
+					c.rec(Event{Kind: "relaunch", Mod: n})
+				}
+				c.launchAt.Store(n, starts)
 				for j := range m.Work {
 					w := &m.Work[j]
 					if _, done := c.launchedInCb.Load(w.ID); done {
@@ -578,10 +598,64 @@ func RunChild(sc *Scenario) *Result {
 			}
 		case "sleep":
 			hold(st.US)
+		case "straddle":
+			// microtasks started on modules that are not online (never started yet, or stopped) and still running when the
+			// module is started (again): they see a cancelled context or none that matters, and they are counted like any other
+			for _, n := range st.Mods {
+				m := c.mods[n]
+				if m.Online() {
+					continue
+				}
+				began := make(chan struct{}, 3)
+				body := func(context.Context) error {
+					atomic.AddInt32(&c.straddling, 1)
+					c.rec(Event{Kind: "straddle-begin", Mod: n})
+					began <- struct{}{}
+					hold(st.US)
+					c.rec(Event{Kind: "straddle-end", Mod: n})
+					atomic.AddInt32(&c.straddling, -1)
+					return nil
+				}
+				m.StartMicroTask("straddle-med", 20*time.Millisecond, body)
+				m.StartHighPriorityMicroTask("straddle-high", body)
+				go func() {
+					done := m.SignalLowPriorityMicroTask(20 * time.Millisecond)
+					_ = body(nil)
+					done()
+				}()
+				for k := 0; k < 3; k++ {
+					select {
+					case <-began:
+					case <-time.After(20 * time.Second):
+						c.rec(Event{Kind: "straddle-incomplete", Mod: n})
+					}
+				}
+			}
+		case "waitstraddle":
+			deadline := time.Now().Add(20 * time.Second)
+			for atomic.LoadInt32(&c.straddling) > 0 && time.Now().Before(deadline) {
+				time.Sleep(200 * time.Microsecond)
+			}
+			// the counters are decremented just after the function returned
+			time.Sleep(2 * time.Millisecond)
 		case "shutdown":
+			// st.US further callers call Shutdown at (about) the same time, e.g. a signal handler and an API request:
+			// none of them may return before everything has stopped
+			var extra sync.WaitGroup
+			for k := 0; k < st.US; k++ {
+				extra.Add(1)
+				go func(k int) {
+					defer extra.Done()
+					hold(k * 150)
+					t0 := time.Now()
+					err := modules.Shutdown()
+					c.snapshot("shutdown-extra", err, time.Since(t0))
+				}(k)
+			}
 			t0 := time.Now()
 			err := modules.Shutdown()
 			c.snapshot("shutdown", err, time.Since(t0))
+			extra.Wait()
 			shutdownDone = true
 		}
 	}
